@@ -43,10 +43,11 @@ theorem yaml_tags_are_field_names : ∀ e ∈ Generated.flagsStruct, e.1 = e.2 :
 /-- The legacy branch is `for i, v := range flags { bits[i] = byte(v.(int)) }`. -/
 theorem legacy_shape : Generated.legacyArrayShape = true := by decide
 
-/-- `Set` / `IsSet` are the MSB-first expressions that `AccessBitmap.set` / `isSet` transcribe. -/
-theorem set_isSet_bodies :
-    Generated.setBody = "bits[i/8] |= 1 << uint(7-i%8)" ∧
-    Generated.isSetBody = "return bits[i/8]&(1<<uint(7-i%8)) != 0" := by decide
+/-  (An earlier obligation compared the TEXT of the bodies of `Set` / `IsSet` with the expressions the model
+    transcribes.  It is superseded by `translated_IsSet_is_the_model` / `translated_Set_is_the_model` at the end of
+    this file: the bodies are translated to Lean on every run and proved EQUAL to `AccessBitmap.isSet` / `set` for
+    all bitmaps and all 0 ≤ i < 64, so a harmless rewrite of the bodies no longer breaks an obligation and a semantic
+    change still does.) -/
 
 /-! ### theorems for all bitmaps -/
 
